@@ -350,9 +350,9 @@ fn minmax_keyed(a: i64, b: i64) -> Result<(), String> {
             let (kc, kt) = (calls(), trace());
             let o: K = $o;
             let (oc, ot) = (calls(), trace());
-            // (the order is not compared here: max!/max_by!/max_by_key! are min with swapped operands by design, which
-            // evaluates the right operand first; the statement only fixes which argument is returned)
-            let _ = (kt, ot);
+            // the order as well: `f(a, b)` evaluates `a` first, so with operands that share state (two `it.next()`
+            // calls) a different order compares a different pair and returns a different argument
+            ensure!(kt == ot, "{}(keys {a},{b}): konst evaluated its argument expressions in the order {} (std {})", $name, kt, ot);
             ensure!(k.tag == o.tag && k.key == o.key, "{}(keys {a},{b}): konst returned argument #{} std argument #{}", $name, k.tag, o.tag);
             ensure!(kc == oc, "{}(keys {a},{b}): konst evaluated its arguments / key function {} time(s), std {}", $name, kc, oc);
         }};
